@@ -17,6 +17,10 @@ inductive Json where
 
 namespace Json
 
+def isNull : Json → Bool
+  | null => true
+  | _ => false
+
 def lookup (k : String) : List (String × Json) → Option Json
   | [] => none
   | (k', v) :: rest => if k' == k then some v else lookup k rest
